@@ -223,7 +223,7 @@ def worker_main():
                     continue
                 d = discharge(ob, timeout_ms, witness)
                 obl[d.name] = d.status
-                if base is not None and d.status == 'failed' and d.name in base:
+                if base is not None and d.status == 'failed':
                     stop = True          # one failed obligation kills the mutant: the rest is not needed
         out[k] = {'status': r.status, 'error': (r.error or '')[:300], 'obligations': obl}
     print('MUTRESULT ' + json.dumps(out))
@@ -265,6 +265,14 @@ def judge(base, res):
                 flagged.append(name)
             elif ms not in ('discharged', 'skipped'):
                 undecided.append(f'{name}: {ms}')
+        # obligations that exist only on the mutant (e.g. safe:bound:<local>, a new safe:* / raises:unexpected-*): a failed
+        # one is a violation for ./check as well; an unknown one makes the run undecided
+        for name, ms in m['obligations'].items():
+            if name not in b['obligations']:
+                if ms == 'failed':
+                    killed.append(name)
+                elif ms == 'unknown':
+                    undecided.append(f'{name}: unknown (new obligation)')
     if killed:
         return 'killed', killed
     if flagged:
